@@ -169,6 +169,24 @@ func (c *Check) serializerMapOrder() {
 	}
 	c.Obls = kept
 	if n == 0 {
+		// for _, k := range slices.Sorted(maps.Keys(m)): the keys are taken in sorted order and
+		// there is no range over the map itself
+		for _, g := range tree {
+			for _, b := range g.Blocks {
+				for _, ins := range b.Instrs {
+					call, ok := ins.(*ssa.Call)
+					if !ok || call.Call.StaticCallee() == nil || fnPkgPath(call.Call.StaticCallee()) != "slices" || !strings.HasPrefix(call.Call.StaticCallee().Name(), "Sorted") || len(call.Call.Args) == 0 {
+						continue
+					}
+					if in, ok := call.Call.Args[0].(*ssa.Call); ok && in.Call.StaticCallee() != nil && fnPkgPath(in.Call.StaticCallee()) == "maps" && strings.HasPrefix(in.Call.StaticCallee().Name(), "Keys") {
+						n++
+						c.ok("C01-R12", fmt.Sprintf("map-order:sorted-keys:%s#%d", fnName(g), n), p.relFile(call.Pos()), "the keys of a map are taken in sorted order in "+fnName(g), "slices.Sorted(maps.Keys(m)): no iteration in map order")
+					}
+				}
+			}
+		}
+	}
+	if n == 0 {
 		c.undecided("C01-R12", "map-order", "", "no range over a map found in the serializer's call tree (label keys are collected from maps)")
 	}
 }
